@@ -343,7 +343,12 @@ def c17e(ctx):
     ok = bool(sets)
     for n in sets:
         lp = enclosing(g.stmt[n], ast.For)
-        ok = ok and lp is not None and same(lp.iter, 'layer.fwd_req_params') and unparse(g.stmt[n].targets[0].slice) == unparse(lp.target)
+        it = lp.iter if lp is not None else None
+        # `layer.fwd_req_params`, or getattr(layer, 'fwd_req_params', <nothing>) for layers that have none
+        named = it is not None and (same(it, 'layer.fwd_req_params') or (
+            is_call(it, 'getattr') and len(it.args) == 3 and const_value(it.args[1]) == 'fwd_req_params' and
+            isinstance(it.args[2], (ast.Tuple, ast.List)) and not it.args[2].elts))
+        ok = ok and named and unparse(g.stmt[n].targets[0].slice) == unparse(lp.target)
     ctx.check(ok, 'WMSServer.update_query_with_fwd_params:only-configured', 'only parameters named in a layer\'s fwd_req_params are copied into the query', up)
     cc = ctx.fn(CW + ':WMSClient.combined_client')
     ok = any(is_call(x, 'WMSClient') and unparse(keyword(x, 'fwd_req_params')) == 'self.fwd_req_params' for x in cc.walk())
